@@ -3,6 +3,7 @@ package harness
 import (
 	"errors"
 	"fmt"
+	"math/big"
 	"strconv"
 	"strings"
 	"testing"
@@ -349,6 +350,14 @@ func genValidLiteral(t *rapid.T, thorough bool) string {
 			cut := ir(t, 0, len(body), "cut")
 			intD, fracD, hasDot = body[:cut], body[cut:]+strings.Repeat("0", z), true
 		}
+	case kind == 10:
+		// digit strings that run along the decimal expansion of 2^64, 2^128, 2^192, 2^256 (and neighbours): the
+		// parser's accumulators are one and two words wide and their "room for one more digit?" tests change
+		// outcome exactly where the digits read so far cross 2^64/10 or 2^128/10
+		all := pow2Digits(t)
+		cut := ir(t, 0, len(all), "dot")
+		intD, fracD = strings.Repeat("0", []int{0, 0, 1, 7}[ir(t, 0, 3, "lz")])+all[:cut], all[cut:]
+		hasDot = cut < len(all) || ir(t, 0, 3, "trailingDot") == 0
 	case kind == 8:
 		// zero values
 		intD = strings.Repeat("0", ir(t, 0, 5, "iz"))
@@ -414,6 +423,27 @@ func genValidLiteral(t *rapid.T, thorough bool) string {
 		s += fracD
 	}
 	return s + expStr
+}
+
+// pow2Digits returns the first n digits of 2^k (or 3*2^k, 2^k/3), the last of them moved by -1..+2, followed by
+// 0..12 arbitrary digits.
+func pow2Digits(t *rapid.T) string {
+	k := []uint{63, 64, 65, 67, 113, 114, 127, 128, 129, 131, 192, 256}[ir(t, 0, 11, "pow2k")]
+	v := new(big.Int).Lsh(ref.One, k)
+	switch ir(t, 0, 5, "pow2mul") {
+	case 0:
+		v.Mul(v, big.NewInt(3))
+	case 1:
+		v.Quo(new(big.Int).Mul(v, ref.Pow10(30)), big.NewInt(3))
+	}
+	full := v.String()
+	n := ir(t, min(15, len(full)), len(full), "n")
+	if ir(t, 0, 2, "fullLen") == 0 {
+		n = len(full)
+	}
+	head, _ := new(big.Int).SetString(full[:n], 10)
+	head.Add(head, bi(int64(ir(t, -1, 2, "off"))))
+	return head.String() + digitString(t, ir(t, 0, 12, "tail"))
 }
 
 const mutChars = "0123456789.eE+-_ x\x00infatyINFATY"
